@@ -109,7 +109,17 @@ def composite_codec_get_coded_const_prefix(codec: CompositeCodec,
         else:
             break
 
-    return encode_state.coded_message
+    # only the leading bytes which are completely determined by
+    # constants are part of the prefix: if constant parameters specify
+    # their position explicitly, there may be gaps in between them
+    # which are filled by subsequent (non-constant) parameters, and
+    # constants which are not byte aligned may share a byte with such
+    # parameters.
+    prefix_len = 0
+    while prefix_len < len(encode_state.used_mask) and encode_state.used_mask[prefix_len] == 0xff:
+        prefix_len += 1
+
+    return encode_state.coded_message[:prefix_len]
 
 
 def composite_codec_encode_into_pdu(codec: CompositeCodec, physical_value: Optional[ParameterValue],
